@@ -101,8 +101,8 @@ Qed.
 Print Assumptions C16_table_fields_compatible.
 
 (* a value outside the documented domain (wrong type, code not listed, out of range) is refused *)
-Theorem C16_set_refuses_out_of_domain : forall size f, field_ok size f = true -> forall e b,
-  length b = size -> bytes b -> forall v, ~ accepts e f v -> set e f v b = None.
+Theorem C16_set_refuses_out_of_domain : forall size f, field_ok size f = true -> forall e b v,
+  ~ accepts e f v -> set e f v b = None.
 Proof. exact set_refuses_out_of_domain. Qed.
 Print Assumptions C16_set_refuses_out_of_domain.
 
@@ -161,6 +161,32 @@ Theorem C16_limit_bits_agree : forall e b b', length b = AlayLayout.axis_size ->
     getn AlayLayout.axis_table "Rate_Limit" b' = Some (VBool (v_max e <? Z.abs v)).
 Proof. exact limit_bits_agree. Qed.
 Print Assumptions C16_limit_bits_agree.
+
+(* ---------- known finding: the full read-back statement fails for negative version components ----------
+   Full statement (refuted): forall f v, accepts e f v -> set e f v b = Some b' -> get f b' = Some v
+   (up to the documented normalisations).  C16_numeric_field_decodes_to_value_assigned is the
+   statement outside the finding's class ([canonical] requires non-negative version components). *)
+Theorem C16_version_negative_refuted : exists f b b',
+  find_field AlayLayout.gs_table "version"%string = Some f /\
+  length b = AlayLayout.gs_size /\ bytes b /\
+  set AlayLayout.env_default f (VPair 1 (-1)) b = Some b' /\
+  get f b' = Some (VPair 1 255).
+Proof. exact version_negative_refuted. Qed.
+Print Assumptions C16_version_negative_refuted.
+
+(* ---------- the pinned tree (before fixes/16a-gs-interlock-bit-order.diff) ----------
+   The 41 interlock bits of the general status used a most-significant-bit-first view with a
+   bit-order write-back; the translator then emits MsbPerByte, [layout_ok] fails, and the model
+   (which follows that code bug for bug) shows why: *)
+Theorem C16_pinned_interlock_refuted :
+  field_ok 25 pinned_EStop = false /\
+  exists b1 b2,
+    set AlayLayout.env_default pinned_EStop (VBool true) (repeat 0 25) = Some b1 /\
+    get pinned_EStop b1 = Some (VBool false) /\
+    set AlayLayout.env_default pinned_ES_SP (VBool true) b1 = Some b2 /\
+    get pinned_EStop b2 = Some (VBool true) /\ get pinned_ES_SP b2 = Some (VBool false).
+Proof. exact pinned_interlock_refuted. Qed.
+Print Assumptions C16_pinned_interlock_refuted.
 
 (* ---------- non-vacuity ---------- *)
 Example C16_ex_set_get :
